@@ -94,6 +94,24 @@ func (w *failingWriter) Write(p []byte) (int, error) {
 
 func goExecMore3(t []string) (string, bool) {
 	switch t[0] {
+	case "sig.verifydetachedr": // form valid lsig sigmsg script
+		ring := parseRing("-", "none", "nil", "nil", t[3], nil)
+		rd := &scriptedReader{parseScriptEntries(t[5])}
+		var skey saltpack.SigningPublicKey
+		var err error
+		if t[1] == "a" {
+			arm, aerr := saltpack.Armor62Seal(unhex(t[4]), saltpack.MessageTypeDetachedSignature, "")
+			if aerr != nil {
+				return "err armor", true
+			}
+			skey, _, err = saltpack.Dearmor62VerifyDetachedReader(parseValidator(t[2]), rd, arm, ring)
+		} else {
+			skey, err = saltpack.VerifyDetachedReader(parseValidator(t[2]), rd, unhex(t[4]), ring)
+		}
+		if err != nil {
+			return fmt.Sprintf("res %s signer=-", script.Class(err)), true
+		}
+		return fmt.Sprintf("res ok signer=%s", keys.Hex(skey.ToKID())), true
 	case "st.dec":
 		var hc saltpack.HeaderChecker
 		var fc saltpack.FrameChecker
@@ -194,7 +212,7 @@ func goExecMore3(t []string) (string, bool) {
 }
 
 // st.chunker kind bs ma lens: drive the real plaintext bufferer of one of the
-// three encoder streams with zero-filled writes of the given lengths and
+// three encoder streams with writes of the given lengths (position-dependent bytes) and
 // recover the chunk plan from the emitted packets.
 func execChunker(t []string) string {
 	kind, ma := t[1], atoi(t[3])
@@ -229,10 +247,17 @@ func execChunker(t []string) string {
 	if err != nil {
 		return "err " + script.Class(err)
 	}
+	// position-dependent plaintext, so that reordered or duplicated bytes show
+	whole := make([]byte, total)
+	for i := range whole {
+		whole[i] = byte(i ^ (i >> 8) ^ (i>>16)*7)
+	}
+	off := 0
 	for _, n := range lens {
-		if _, err := w.Write(make([]byte, n)); err != nil {
+		if _, err := w.Write(whole[off : off+n]); err != nil {
 			return "err " + script.Class(err)
 		}
+		off += n
 		if b := saltpack.VerifBuffered(w); b > maxBuf {
 			maxBuf = b
 		}
@@ -244,11 +269,11 @@ func execChunker(t []string) string {
 	script.With(src2, func() {
 		switch kind {
 		case "sig":
-			oneShot, err = saltpack.Sign(v, make([]byte, total), keys.NewSigSecret(secret, nil))
+			oneShot, err = saltpack.Sign(v, whole, keys.NewSigSecret(secret, nil))
 		case "enc":
-			oneShot, err = saltpack.Seal(v, make([]byte, total), nil, []saltpack.BoxPublicKey{keys.NewBoxSecret(secret, false, nil, c).Pub})
+			oneShot, err = saltpack.Seal(v, whole, nil, []saltpack.BoxPublicKey{keys.NewBoxSecret(secret, false, nil, c).Pub})
 		default:
-			oneShot, err = saltpack.SigncryptSeal(make([]byte, total), c, keys.NewSigSecret(secret, nil), []saltpack.BoxPublicKey{keys.NewBoxSecret(secret, false, nil, c).Pub}, nil)
+			oneShot, err = saltpack.SigncryptSeal(whole, c, keys.NewSigSecret(secret, nil), []saltpack.BoxPublicKey{keys.NewBoxSecret(secret, false, nil, c).Pub}, nil)
 		}
 	})
 	same := err == nil && bytes.Equal(oneShot, buf.Bytes())
